@@ -32,7 +32,7 @@ from parsers import *
 LEVEL = 'other'
 EXPLANATION = __doc__
 ASSUMPTIONS = ['roff treats a line as a request only if it starts with `.` or `\'`; HTML text needs only < and > escaped outside attributes']
-FLOORS = {'T.html-taint': 2, 'G.html-tags': 14, 'P.token-pairing': 15, 'E.roff-escaper': 6, 'U.unescaped': 12, 'S.sections': 7, 'C.capture': 4, 'K.cursor': 3, 'K.skip-pairing': 1}
+FLOORS = {'T.html-taint': 2, 'G.html-tags': 14, 'P.token-pairing': 15, 'E.roff-escaper': 6, 'U.unescaped': 12, 'S.sections': 10, 'C.capture': 4, 'K.cursor': 3, 'K.skip-pairing': 1}
 
 def run(ctx):
     cfgs = ['doc', 'all'] if ctx.tier == 'quick' else ['doc', 'all', 'autocomplete,docgen', 'docgen,dull-color']
@@ -592,3 +592,22 @@ def sections(ctx, cfg, fs):
         am2 = [c for c in x.calls() if c.is_(r'append_meta$')]
         ok = len(es) == 1 and bool(pipe) and (nm == 'collect_html' or len(am2) == 2)
         ctx.ob('S.sections', '%s:pipeline' % nm, ok, '%s documents the sections found by extract_sections with the --help pipeline (%s)' % (nm, sorted({short(c.name) for c in pipe + am2})), where=x.where(), cfg=cfg)
+        # every section found is documented: nothing removes, filters or de-duplicates the list of sections
+        fam = fs.family(x)
+        shrink = sorted({re.sub(r'::<.*$', '', c.name.split('>::')[-1]) for y in fam for c in y.calls() if 'DocSection' in c.full and c.is_(r'Vec::<.*>::(retain|retain_mut|dedup\w*|truncate|remove|swap_remove|drain|pop|clear|split_off)\b')})
+        filt = []
+        for y in fam:
+            for c in y.calls():
+                if c.is_(r'Iterator>?::(filter|filter_map|skip|skip_while|take|take_while|step_by)$') and 'DocSection' in c.full:
+                    filt.append(c.name.split('::')[-1])
+        ctx.ob('S.sections', '%s:every-section-kept' % nm, not shrink and not filt, '%s keeps every section extract_sections found (shrinking calls: %s, filtering adaptors: %s)' % (nm, shrink or 'none', filt or 'none'), where=x.where(), cfg=cfg)
+        # each section is rendered with ITS OWN help/version flags (section.info), not those of the top level
+        hm = []
+        for y in fam:
+            for c in y.calls():
+                if c.is_(r'info::Info as Parser.*::meta$', r'^info::Info::meta$'):
+                    rs = provenance(y, c.args[0], c.bb, 'term', through=DEFAULT_THROUGH + [r'Iterator>?::next$', r'slice::<impl \[T\]>::iter$', r'IntoIterator>?::into_iter$'])
+                    hm.append(sorted({'section' if any('info' == p_ for p_ in r.path) and not (r.kind == 'param' and r.what == 'self') else ('self' if (r.kind in ('param', 'upvar') and r.what == 'self') else '%s:%s' % (r.kind, r.what)) for r in rs}))
+        if nm == 'render_manpage':
+            ok_h = bool(hm) and all(h == ['section'] for h in hm)
+            ctx.ob('S.sections', '%s:own-help-flags' % nm, ok_h, '%s takes the help/version flags shown with a section from %s (must be the section\'s own Info)' % (nm, hm), where=x.where(), cfg=cfg)
